@@ -100,7 +100,7 @@ TEXT = {
             "equals fsize for fixed types (full nesting); C11_value_len: for every constructed value of every type the reported "
             "byte count equals the length of the actual encoding (= the spec encoding), lies within the bounds and is the "
             "fixed size for fixed-size types. Mutated values / Python glue: correspondence + model-free oracle.",
-            "Coq proof by induction on ty (lia) + C02 theorem + correspondence", "5 (C11)"),
+            "Coq proof by induction on ty (lia) + C02 theorem + correspondence + translation of the type classes' size-fact methods with machine-checked equivalence to the model for every type", "5 (C11)"),
     "C12": ("Theorems: default_node(t) succeeds for every well-formed type and its root is Spec.htr t (zero_val t) "
             "(induction on ty through fill_to_length / fill_to_contents and the CRep invariant); zero_val is well-formed; "
             "default root = root of the explicitly constructed zero value; C12_default_is_constructed: the default backing IS "
